@@ -354,6 +354,43 @@ def pyaPercent (isBytes : Bool) (t : List Char) (a : Arg) : POut :=
 /-- Something is reported on the expression. -/
 def POut.reports (o : POut) : Bool := !o.errs.isEmpty
 
+/-! ### Union-typed right operands and whole programs
+
+`accept_mapping_args` (:306) / `accept_tuple_args` (:351) loop over `flatten_values(args)`; the
+no-specifier test of `accept` compares the whole value with `KnownValue(())` / `KnownValue({})`,
+so a union (a `MultiValuedValue` of ≥ 2 distinct literals) always gets the `noSpecs` message there. -/
+
+/-- `PercentFormatString.accept` on a right operand given by its union members (`[a]` = a plain
+literal). -/
+def acceptAllU (isBytes : Bool) (ss : List CSpec) (as : List Arg) : List PErr :=
+  match as with
+  | [a] => acceptAll isBytes ss a
+  | _ =>
+    if ss.isEmpty then [.noSpecs]
+    else if needsMapping ss then as.flatMap (acceptMapping isBytes ss)
+    else as.flatMap (acceptTuple isBytes ss)
+
+def pyaPercentU (isBytes : Bool) (t : List Char) (as : List Arg) : POut :=
+  let ts := scan t
+  { errs := lintAll isBytes ts ++ acceptAllU isBytes (specsOf ts) as,
+    ty := if isBytes then .bytes else .str }
+
+/-- One `template % operand` expression of a checked program. -/
+structure Occ where
+  isBytes : Bool
+  tmpl : List Char
+  args : List Arg
+  deriving DecidableEq, Repr, Inhabited
+
+def pyaOcc (o : Occ) : POut := pyaPercentU o.isBytes o.tmpl o.args
+
+/-- Checking a program: `check_string_format` (:389) is called once per occurrence; it parses the
+template afresh (`from_pattern`), `get_specifier_mapping` (:298) builds a new `defaultdict` per
+call, and neither the module nor `PercentFormatString` keeps anything between calls (this is the
+obligation `format_checker_is_cache_free` over `Generated/FormatCaches.lean`). So the verdicts
+of a program are the verdicts of its occurrences, one by one. -/
+def pyaProgram (p : List Occ) : List POut := p.map pyaOcc
+
 /-- The deliberately stricter lint rules (documented in the source: the comment in
 `PercentFormatString.accept` about `'' % {'a': 3}`, and the mixing rule of `lint`). -/
 def PErr.lintOnly : PErr → Bool
